@@ -215,6 +215,8 @@ struct ScenarioRec {
 static CURRENT: Mutex<Option<Arc<ScenarioRec>>> = Mutex::new(None);
 static STRAY: Mutex<usize> = Mutex::new(0);
 static PANICS: Mutex<Vec<String>> = Mutex::new(Vec::new());
+/// arrival counters of the `barrier` op (name -> participants arrived)
+static BARRIERS: Mutex<Option<HashMap<String, usize>>> = Mutex::new(None);
 /// directory of the scenario's ProxyAgentStatusTask (`status_task_ms`), None when none is running
 static STATUS_DIR: Mutex<Option<std::path::PathBuf>> = Mutex::new(None);
 
@@ -889,6 +891,24 @@ async fn run_ops(ops: Option<&Value>, shared: &SharedState, env: &Env, snaps: &M
             }
             "kill_actor" => kill_actor(shared, op.get("actor").and_then(|x| x.as_str()).unwrap_or("")).await?,
             "clear_summary" => shared.get_agent_status_shared_state().clear_all_summary().await.map_err(|e| e.to_string())?,
+            "barrier" => {
+                // rendezvous of concurrent client connections: continue when `n` participants have arrived at `name`
+                let name = op.get("name").and_then(|x| x.as_str()).unwrap_or("barrier").to_string();
+                let n = op.get("n").and_then(|x| x.as_u64()).unwrap_or(1) as usize;
+                let limit = Duration::from_millis(op.get("timeout_ms").and_then(|x| x.as_u64()).unwrap_or(60000));
+                {
+                    let mut b = BARRIERS.lock().unwrap();
+                    *b.get_or_insert_with(HashMap::new).entry(name.clone()).or_insert(0) += 1;
+                }
+                let t0 = std::time::Instant::now();
+                loop {
+                    let arrived = BARRIERS.lock().unwrap().as_ref().and_then(|m| m.get(&name).copied()).unwrap_or(0);
+                    if arrived >= n || t0.elapsed() > limit {
+                        break;
+                    }
+                    tokio::time::sleep(Duration::from_millis(1)).await;
+                }
+            }
             "wait_trace" => {
                 // wait until the accept processing of the n-th connection from `port` is over: `lookups` lookup
                 // events for the port are in the H1 trace and every lookup that found an entry has its remove event
@@ -1281,6 +1301,7 @@ async fn run_scenario(sc: Value, env: Arc<Env>) -> Value {
     let _ = hooks::take_trace();
     hooks::FAIL_REMOVE.store(sc.get("fail_remove").and_then(|x| x.as_bool()).unwrap_or(false), Ordering::SeqCst);
     PANICS.lock().unwrap().clear();
+    *BARRIERS.lock().unwrap() = None;
 
     let mut replies: HashMap<String, Vec<(Value, bool)>> = HashMap::new();
     if let Some(m) = sc.get("replies").and_then(|x| x.as_object()) {
